@@ -1854,3 +1854,242 @@ Proof.
       destruct HLf as [HLf _]. exact HLf.
     + cbn [fst snd] in X1. congruence.
 Qed.
+
+(* ---- the first request: both drivers start from the same new engine --------------------------------------- *)
+Lemma exec_inner_true_ok : forall fuel rs c e A' s, eng_exec_inner fuel rs c e = (A', true, s) -> s = SOk.
+Proof.
+  intros fuel rs c e A' s H. unfold eng_exec_inner in H.
+  destruct (s_code (v_st (e_v e))); [discriminate|].
+  destruct (run fuel rs (c_sep c) _ _ _) as [[v1 b] s1]. destruct s1; try discriminate.
+  destruct (getf (v_st v1) FLAG_TERMINATE); [discriminate|].
+  destruct (set_code_eng _ b) as [e2 cont]. injection H as _ _ <-. reflexivity.
+Qed.
+
+Lemma exec_tail_cont_err : forall fuel rs c A input A' s,
+  exec_tail fuel rs c A input = (A', true, s) -> s <> SOk -> A' = fst (reset_opt c input A).
+Proof.
+  intros fuel rs c A input A' s H Hs. unfold exec_tail in H. fold (reset_opt c input A) in H.
+  pose proof (reset_opt_ok c input A) as Hok.
+  destruct (reset_opt c input A) as [A2 s2]. cbn [fst snd] in *. subst s2.
+  destruct ((0 <? len input) && negb (valid_input_b input)); [injection H as <- _; reflexivity|].
+  destruct (set_input (v_st (e_v A2)) (Some input)) as [st'|e|n]; try discriminate.
+  apply exec_inner_true_ok in H. congruence.
+Qed.
+
+Definition stat_alive (s : stat) : Prop := match s with SPanic _ | SFuel => False | _ => True end.
+
+Lemma finish_same : forall fuel rs c p o x,
+  let '(eL, rl) := long_finish fuel rs c x in
+  let '(p', rp) := pers_finish fuel rs c p o x in
+  rl = rp /\ r_cont rl = snd (fst x) /\ r_exec rl = snd x /\
+  (flush_alive (r_flush rl) ->
+   eL = fst (fst (eng_flush fuel rs c (fst (fst x)))) /\
+   (e_initd eL = true ->
+    pw_store p' = Some (snap_of (v_st (e_v eL)) (v_ca (e_v eL))) /\ pw_w p' = v_w (e_v eL) /\ pw_log p' = v_log (e_v eL))).
+Proof.
+  intros fuel rs c p o [[e1 cont] s]. unfold long_finish, pers_finish. cbn [fst snd].
+  destruct s as [|er m|n|].
+  - destruct (eng_flush fuel rs c e1) as [[e2 out] f]. cbn [fst].
+    destruct f; cbv beta iota; (split; [reflexivity|]); (split; [reflexivity|]); (split; [reflexivity|]);
+      cbn [r_flush flush_alive]; intros Ha; try contradiction; (split; [reflexivity|]); intros Hi;
+      unfold eng_finish; rewrite Hi; cbn [pw_store pw_w pw_log]; auto.
+  - destruct (eng_flush fuel rs c e1) as [[e2 out] f]. cbn [fst].
+    destruct f; cbv beta iota; (split; [reflexivity|]); (split; [reflexivity|]); (split; [reflexivity|]);
+      cbn [r_flush flush_alive]; intros Ha; try contradiction; (split; [reflexivity|]); intros Hi;
+      unfold eng_finish; rewrite Hi; cbn [pw_store pw_w pw_log]; auto.
+  - cbv beta iota. split; [reflexivity|]. split; [reflexivity|]. split; [reflexivity|]. cbn [r_flush flush_alive]. contradiction.
+  - cbv beta iota. split; [reflexivity|]. split; [reflexivity|]. split; [reflexivity|]. cbn [r_flush flush_alive]. contradiction.
+Qed.
+
+(* the configured flag count leaves room for the eight built-in flags in the flag field *)
+Definition cfg_flags_ok (c : config) : Prop := flags_ok (fresh_state c).
+
+Lemma nth_falses : forall n i, nth i (falses n) false = false.
+Proof. induction n as [|n IH]; intros [|i]; cbn [falses nth]; auto. Qed.
+
+Lemma getf_fresh : forall c i, i <> FLAG_LANG -> getf (fresh_state c) i = false.
+Proof.
+  intros c i Hi. unfold fresh_state.
+  set (s := st_set_language lang_lookup (new_state (c_flagcount c)) (c_lang c)).
+  assert (H : getf s i = false).
+  { unfold s. rewrite getf_set_language. unfold getf, new_state. cbn [s_flags]. apply nth_falses. }
+  destruct (s_lang s); [rewrite getf_setf_other by exact Hi|]; exact H.
+Qed.
+
+Lemma fresh_state_shape : forall c, s_code (fresh_state c) = [] /\ s_path (fresh_state c) = [].
+Proof.
+  intros c. unfold fresh_state, st_set_language.
+  destruct (c_lang c); destruct (lang_lookup _); cbn; auto.
+Qed.
+
+Definition e_init (c : config) (w : list (bytes * N)) (lg : list ev) : engine :=
+  mkEng (mkVm (set_input_raw (set_code (fresh_state c) (encode (IMove (cfg_root c)))) None) (fresh_cache c) (P0 c) w lg false)
+        true [] false false.
+
+Lemma init_sc_fresh : forall c,
+  init_sc c (fresh_state c) (fresh_cache c)
+  = (set_input_raw (set_code (fresh_state c) (encode (IMove (cfg_root c)))) None, fresh_cache c).
+Proof.
+  intros c. unfold init_sc, stale. destruct (fresh_state_shape c) as [Hc Hp]. rewrite Hc, Hp.
+  rewrite fresh_state_input. reflexivity.
+Qed.
+
+Lemma Linv_e_init : forall c w lg, cfg_flags_ok c -> Linv c (e_init c w lg).
+Proof.
+  intros c w lg Hf. unfold Linv, e_init. cbn [e_initd e_exit e_exiting e_v v_st v_pg].
+  repeat (split; [reflexivity|]).
+  split; [cbn [s_code set_input_raw set_code]; apply encode_nonempty|].
+  split; [apply (getf_fresh c FLAG_DIRTY); unfold FLAG_DIRTY, FLAG_LANG; lia|].
+  split; [apply (getf_fresh c FLAG_TERMINATE); unfold FLAG_TERMINATE, FLAG_LANG; lia|].
+  split; [exact Hf|]. split; [reflexivity|]. intros _. apply peq_refl.
+Qed.
+
+Lemma first_exec : forall fuel rs c w lg i, c_first c = None ->
+  eng_exec fuel rs c (new_engine c None w lg) i =
+  if INPUT_LIMIT <? len i then (new_engine c None w lg, false, SErr EGen None)
+  else exec_tail fuel rs c (e_init c w lg) i.
+Proof.
+  intros fuel rs c w lg i Hf. unfold new_engine. rewrite eng_exec_fresh by exact Hf.
+  rewrite init_sc_fresh. reflexivity.
+Qed.
+
+Lemma first_step : forall fuel rs c w lg t i,
+  c_first c = None -> cfg_flags_ok c ->
+  let '(e', rl) := request_long fuel rs c (new_engine c None w lg) i in
+  let '(p', rp) := request_persisted fuel rs c (mkPw None w lg t) i in
+  rl = rp /\
+  (r_cont rl = true -> flush_alive (r_flush rl) -> no_browse_err_b fuel rs c (new_engine c None w lg) i = true -> R c e' p').
+Proof.
+  intros fuel rs c w lg t i Hf Hfl. unfold no_browse_err_b.
+  rewrite request_long_finish, request_persisted_finish. cbn [pw_store pw_w pw_log].
+  rewrite (first_exec fuel rs c w lg i Hf).
+  pose proof (finish_same fuel rs c (mkPw None w lg t) (store0_of c None)
+               (if INPUT_LIMIT <? len i then (new_engine c None w lg, false, SErr EGen None)
+                else exec_tail fuel rs c (e_init c w lg) i)) as Hs.
+  destruct (long_finish fuel rs c _) as [eL rl]. destruct (pers_finish fuel rs c _ _ _) as [p' rp].
+  destruct Hs as (Hr & Hc & Hx & Hrest). split; [exact Hr|]. intros Hcont Ha Hb.
+  destruct (INPUT_LIMIT <? len i); [cbn [fst snd] in Hc; congruence|].
+  destruct (Hrest Ha) as [HeL Hstore].
+  pose proof (Linv_e_init c w lg Hfl) as HLi.
+  destruct (exec_tail fuel rs c (e_init c w lg) i) as [[A' ca'] sa] eqn:EA. cbn [fst snd] in *.
+  rewrite Hcont in Hc. subst ca'.
+  assert (HL : Linv c eL).
+  { destruct sa as [|er m|n|].
+    - pose proof (exec_tail_cont fuel rs c (e_init c w lg) i A' HLi eq_refl EA) as Hran.
+      rewrite HeL. apply flush_ran_Linv; [exact Hran|]. apply negb_true_iff in Hb. exact Hb.
+    - pose proof (exec_tail_cont_err fuel rs c _ _ _ _ EA ltac:(discriminate)) as HA. subst A'.
+      rewrite HeL. rewrite flush_before_exec by (rewrite reset_opt_execd; reflexivity). cbn [fst].
+      apply reset_opt_Linv. exact HLi.
+    - pose proof (exec_tail_cont_err fuel rs c _ _ _ _ EA ltac:(discriminate)) as HA. subst A'.
+      rewrite HeL. rewrite flush_before_exec by (rewrite reset_opt_execd; reflexivity). cbn [fst].
+      apply reset_opt_Linv. exact HLi.
+    - pose proof (exec_tail_cont_err fuel rs c _ _ _ _ EA ltac:(discriminate)) as HA. subst A'.
+      rewrite HeL. rewrite flush_before_exec by (rewrite reset_opt_execd; reflexivity). cbn [fst].
+      apply reset_opt_Linv. exact HLi. }
+  unfold R. split; [exact HL|]. apply Hstore. destruct HL as [HL _]. exact HL.
+Qed.
+
+(* ---- whole histories, up to and including the first response that ends the session ------------------------- *)
+Definition alive_b (r : response) : bool :=
+  r_cont r && match r_flush r with FPanic _ | FFuel => false | _ => true end.
+Fixpoint upto_stop (l : list response) : list response :=
+  match l with
+  | [] => []
+  | r :: rest => if alive_b r then r :: upto_stop rest else [r]
+  end.
+
+(* the guards, along the long-lived run, as long as the session goes on *)
+Fixpoint c07_guard (fuel : nat) (rs : rsrc) (c : config) (e : engine) (h : list bytes) : Prop :=
+  match h with
+  | [] => True
+  | i :: h' =>
+    input_ok_b i = true /\ no_browse_leak_b fuel rs c e i = true /\
+    (alive_b (snd (request_long fuel rs c e i)) = true ->
+     no_browse_err_b fuel rs c e i = true /\ c07_guard fuel rs c (fst (request_long fuel rs c e i)) h')
+  end.
+
+Lemma alive_b_spec : forall r, alive_b r = true -> r_cont r = true /\ flush_alive (r_flush r).
+Proof. intros r H. unfold alive_b in H. apply andb_true_iff in H as [H1 H2]. split; [exact H1|]. destruct (r_flush r); try discriminate; exact I. Qed.
+
+Lemma history_from_R : forall fuel rs c h e p,
+  c_first c = None -> R c e p -> c07_guard fuel rs c e h ->
+  upto_stop (snd (serve_long fuel rs c e h)) = upto_stop (snd (serve_pers fuel rs c p h)).
+Proof.
+  induction h as [|i h IH]; intros e p Hf HR Hg; [reflexivity|].
+  cbn [c07_guard] in Hg. destruct Hg as (G1 & G2 & G3).
+  pose proof (step_simulation fuel rs c e p i Hf HR G1 G2) as Hs.
+  cbn [serve_long serve_pers].
+  destruct (request_long fuel rs c e i) as [e1 rl]. destruct (request_persisted fuel rs c p i) as [p1 rp].
+  destruct Hs as [Hr HR1]. subst rp. cbn [fst snd] in G3.
+  destruct (serve_long fuel rs c e1 h) as [e2 rr] eqn:E1. destruct (serve_pers fuel rs c p1 h) as [p2 rr'] eqn:E2.
+  cbn [snd upto_stop].
+  destruct (alive_b rl) eqn:Ea; [|reflexivity].
+  destruct (G3 eq_refl) as [G4 G5]. destruct (alive_b_spec rl Ea) as [Hc Hfa].
+  specialize (IH e1 p1 Hf (HR1 Hc Hfa G4) G5). rewrite E1, E2 in IH. cbn [snd] in IH. rewrite IH. reflexivity.
+Qed.
+
+Lemma history_simulation : forall fuel rs c h w lg t,
+  c_first c = None -> cfg_flags_ok c -> c07_guard fuel rs c (new_engine c None w lg) h ->
+  upto_stop (snd (serve_long fuel rs c (new_engine c None w lg) h))
+  = upto_stop (snd (serve_pers fuel rs c (mkPw None w lg t) h)).
+Proof.
+  intros fuel rs c [|i h] w lg t Hf Hfl Hg; [reflexivity|].
+  cbn [c07_guard] in Hg. destruct Hg as (G1 & G2 & G3).
+  pose proof (first_step fuel rs c w lg t i Hf Hfl) as Hs.
+  cbn [serve_long serve_pers].
+  destruct (request_long fuel rs c (new_engine c None w lg) i) as [e1 rl].
+  destruct (request_persisted fuel rs c (mkPw None w lg t) i) as [p1 rp].
+  destruct Hs as [Hr HR1]. subst rp. cbn [fst snd] in G3.
+  pose proof (history_from_R fuel rs c h e1 p1 Hf) as IH.
+  destruct (serve_long fuel rs c e1 h) as [e2 rr]. destruct (serve_pers fuel rs c p1 h) as [p2 rr'].
+  cbn [snd upto_stop] in *.
+  destruct (alive_b rl) eqn:Ea; [|reflexivity].
+  destruct (G3 eq_refl) as [G4 G5]. destruct (alive_b_spec rl Ea) as [Hc Hfa].
+  rewrite (IH (HR1 Hc Hfa G4) G5). reflexivity.
+Qed.
+
+(* the guard as a boolean function of application, configuration and history *)
+Fixpoint c07_guard_b (fuel : nat) (rs : rsrc) (c : config) (e : engine) (h : list bytes) : bool :=
+  match h with
+  | [] => true
+  | i :: h' =>
+    input_ok_b i && no_browse_leak_b fuel rs c e i &&
+    (if alive_b (snd (request_long fuel rs c e i))
+     then no_browse_err_b fuel rs c e i && c07_guard_b fuel rs c (fst (request_long fuel rs c e i)) h'
+     else true)
+  end.
+
+Lemma c07_guard_b_spec : forall fuel rs c h e, c07_guard_b fuel rs c e h = true -> c07_guard fuel rs c e h.
+Proof.
+  induction h as [|i h IH]; intros e H; [exact I|].
+  cbn [c07_guard_b] in H. apply andb_true_iff in H as [H H3]. apply andb_true_iff in H as [H1 H2].
+  cbn [c07_guard]. split; [exact H1|]. split; [exact H2|].
+  intros Ha. rewrite Ha in H3. apply andb_true_iff in H3 as [H4 H5]. split; [exact H4|apply IH; exact H5].
+Qed.
+
+Definition cfg_flags_ok_b (c : config) : bool := Nat.leb 8 (List.length (s_flags (fresh_state c))).
+Lemma cfg_flags_ok_b_spec : forall c, cfg_flags_ok_b c = true -> cfg_flags_ok c.
+Proof. intros c H. unfold cfg_flags_ok_b in H. apply PeanoNat.Nat.leb_le in H. exact H. Qed.
+
+Theorem history_simulation_b : forall fuel rs c h,
+  c_first c = None -> cfg_flags_ok_b c = true ->
+  c07_guard_b fuel rs c (new_engine c None [] []) h = true ->
+  upto_stop (snd (serve_long fuel rs c (new_engine c None [] []) h))
+  = upto_stop (snd (serve_pers fuel rs c (mkPw None [] [] false) h)).
+Proof.
+  intros fuel rs c h Hf Hfl Hg. apply history_simulation; [exact Hf|apply cfg_flags_ok_b_spec; exact Hfl|].
+  apply c07_guard_b_spec. exact Hg.
+Qed.
+
+(* when the long-lived menu carries no browse configuration the leak guard holds trivially *)
+Lemma no_leak_when_clean : forall fuel rs c e i,
+  scrubp (v_pg (e_v e)) = v_pg (e_v e) -> no_browse_leak_b fuel rs c e i = true.
+Proof.
+  intros fuel rs c e i H. unfold no_browse_leak_b.
+  assert (Hs : scrub e = e). { unfold scrub. rewrite H. destruct e as [[] ? ? ? ?]; reflexivity. }
+  rewrite Hs. destruct (e_execd _); [|reflexivity].
+  destruct (bro _) as [[[a n] p]|]; [|reflexivity]. unfold bro_eqb.
+  assert (Ha : browse_eqb a a = true).
+  { unfold browse_eqb. rewrite !Bool.eqb_reflx, !BytesProofs.bytes_eqb_refl. reflexivity. }
+  rewrite Ha, !Bool.eqb_reflx. reflexivity.
+Qed.
